@@ -38,6 +38,8 @@ SPECS = {
         dict(config=[dict(tspan=[1, 4], period="quarter", vspan=[0.5, 2])], _object=True),
         dict(config=[dict(tspan=[1, 12], period="month", vspan=[0.5, 2]), dict(tspan=["2019-12-01", "2020-12-31"], vspan=[2, 5], zspan=[0, 100]),
                      dict(tspan=[1, 53], period="week", vspan=[0, 1])]),
+        # absolute bounds centuries away (outside the range of nanosecond timestamps)
+        dict(config=[dict(tspan=["1600-01-01", "2300-01-01"], vspan=[0.5, 2], fspan=[0, 2.5])]),
     ]),
     "spike_test": dict(mod="qartod", kind="series", needs=(), none_ok=True, cfgs=[
         dict(),
@@ -93,6 +95,10 @@ def carrier(vals, how):
         return alpha.pylist(vals)
     if how == "tuple":
         return tuple(alpha.pylist(vals))
+    if how == "ndbe":  # big-endian float64 (what scipy's NetCDF-3 reader hands out)
+        return alpha.nd(vals).astype(">f8")
+    if how == "ndf4":
+        return alpha.nd(vals).astype("float32")
     if how in ("ndi", "listi"):  # integer-typed carriers (int64 ndarray / list of python ints); None when not representable
         if any(v in (NAN, None) or float(v) != int(v) for v in vals):
             return None
